@@ -326,6 +326,8 @@ class ObjRun:
                     self.op_special(target, op)
                 elif k == "model_apply":
                     self.op_model_apply(op)
+                elif k == "mutate_copy":
+                    self.op_mutate_copy(target, op)
             except core.SimCrash:
                 ctx.count("ops_crashed_by_fault")
             finally:
@@ -479,6 +481,37 @@ class ObjRun:
             if o.root == "J" and not any(s_.get("special") for s_ in o.path) and not close(w, self.total, 1e-9):
                 ctx.violate("C01", "wrong_value", {"engine": "objhist", "obj_class": type(obj).__name__,
                                                    "how": "kw", "graph": self.sc["graph"]["graph"]}, got=w, expected=self.total)
+
+    def op_mutate_copy(self, o, op):
+        """NOT GENERATED (kept for experiments only).  Explicit setters on a derived object are not "conditioning,
+        evaluating or sampling" (soundness rule 5): e.g. Likelihood.enable_FD() documentedly delegates to the shared
+        underlying distribution, so a first version that generated this op reported a by-design sharing as a C11
+        violation - the check demanded more than the property states and the op was withdrawn."""
+        if not o.path or o.kind == "model":
+            return
+        obj = o.obj
+        what = op["what"]
+        done = False
+        try:
+            if what == "enable_FD" and hasattr(obj, "enable_FD"):
+                obj.enable_FD(1e-6)
+                done = True
+            elif what == "set_geometry" and hasattr(obj, "geometry") and np.isscalar(getattr(obj, "dim", None)):
+                from cuqi.geometry import Continuous1D
+                obj.geometry = Continuous1D(int(obj.dim))
+                done = True
+            elif what == "set_param":
+                for attr in ("mean", "cov", "prec", "scale", "location", "rate"):
+                    v = getattr(obj, attr, None)
+                    if v is not None and not callable(v) and np.ndim(v) <= 1 and attr in getattr(obj, "get_mutable_variables", lambda: [])():
+                        setattr(obj, attr, np.asarray(v, float) * 1.5 + 0.1)
+                        done = True
+                        break
+        except Exception:
+            pass
+        if done:
+            self.ctx.fault("setter_on_derived_copy")
+            self.pool = [p for p in self.pool if p is not o]
 
     def op_model_apply(self, op):
         """model(distribution) / model @ distribution only renames the input of a *copy*"""
